@@ -179,7 +179,7 @@ def run(shard, rec):
             for r in rs:
                 out.append(await mpc.output(r))
             return out
-        w = sim.World(m, t, no_prss, seed=sseed, policy=policy).run(program)
+        w = sim.World(m, t, no_prss, seed=sseed, policy=policy).run(program, cpu_seconds=90)
         res = w.ok_results()
         what = f'{shard["name"]} SecFlt({l})'
         if res is None:
